@@ -576,3 +576,45 @@ mk('stor_two_record_arrays', ['i%', 'v%'],
          ('dim', 'dim', [('m&', None, None)])],
    types=[('pt', [('x%', None), ('y&', None)])],
    family='storage', pre='-1 <= x0 <= 5')
+
+# a record (variable and array element) passed to procedures that access
+# several fields, fields at non-zero offsets first, repeatedly, and hand
+# the parameter on: the parameter must keep naming the caller's record
+mk('stor_record_param_fields', ['a%', 'b&'],
+   [L(('fld', var('r'), ['x'], '%'), var('a%')),
+    L(('fld', var('r'), ['y'], '&'), var('b&')),
+    L(('fld', var('r'), ['z'], '%'), I(3)),
+    L(('fld', ('idx', 'ps', [I(1)]), ['x'], '%'), I(10)),
+    L(('fld', ('idx', 'ps', [I(1)]), ['y'], '&'), LG(11)),
+    L(('fld', ('idx', 'ps', [I(1)]), ['z'], '%'), I(12)),
+    L(('fld', ('idx', 'ps', [I(2)]), ['x'], '%'), I(20)),
+    L(var('k%'), I(99)),
+    ('callsub', 'touch', [var('r')]),
+    ('callsub', 'touch', [('idx', 'ps', [I(1)])]),
+    P(('fld', var('r'), ['x'], '%'), ';', ('fld', var('r'), ['y'], '&'), ';',
+      ('fld', var('r'), ['z'], '%'), ';', var('k%')),
+    P(('fld', ('idx', 'ps', [I(1)]), ['x'], '%'), ';',
+      ('fld', ('idx', 'ps', [I(1)]), ['y'], '&'), ';',
+      ('fld', ('idx', 'ps', [I(1)]), ['z'], '%'), ';',
+      ('fld', ('idx', 'ps', [I(2)]), ['x'], '%'), ';',
+      ('fld', ('idx', 'ps', [I(2)]), ['y'], '&'))],
+   head=[('dim', 'dim', [('r', None, 'pt3')]),
+         ('dim', 'dim', [('ps', [(I(0), I(2))], 'pt3')]),
+         ('dim', 'dim', [('k%', None, None)])],
+   subs=[Sub('touch', 'sub', [('p', 'pt3')],
+             [P(('fld', var('p'), ['z'], '%'), ';',
+                ('fld', var('p'), ['y'], '&'), ';',
+                ('fld', var('p'), ['x'], '%')),
+              L(('fld', var('p'), ['y'], '&'),
+                B('+', ('fld', var('p'), ['y'], '&'), LG(1))),
+              L(('fld', var('p'), ['z'], '%'), I(7)),
+              ('callsub', 'deeper', [var('p')]),
+              P(('fld', var('p'), ['x'], '%'), ';',
+                ('fld', var('p'), ['z'], '%'))]),
+         Sub('deeper', 'sub', [('q', 'pt3')],
+             [L(('fld', var('q'), ['z'], '%'),
+                B('+', ('fld', var('q'), ['z'], '%'), I(1))),
+              L(('fld', var('q'), ['x'], '%'), I(5))])],
+   types=[('pt3', [('x%', None), ('y&', None), ('z%', None)])],
+   family='storage', pre='-100 <= x0 <= 100 and -100000 <= x1 <= 100000',
+   budget=900)
